@@ -254,4 +254,18 @@ class LoopRig(srvkit.Rig):
                 self.selector.unregister(self.listener)
             except KeyError:
                 pass
-        super().close()
+        # teardown only: Pool.close() sleeps 0.1 s before joining its workers; the workers are signalled already
+        from Pyro5 import svr_threads
+        real_time = svr_threads.time
+
+        class NoSleep:
+            def __getattr__(self, name):
+                return getattr(real_time, name)
+
+            def sleep(self, s):
+                pass
+        svr_threads.time = NoSleep()
+        try:
+            super().close()
+        finally:
+            svr_threads.time = real_time
